@@ -26,6 +26,7 @@ def Work.queue (w : Work) : List Nat := ids w.evs ++ (w.woken ++ w.st.waiters)
 structure WInv (w : Work) : Prop where
   S_nonneg : 0 ≤ w.st.S
   wait_S : w.st.waiters ≠ [] → w.st.S = 0
+  fx : w.st.fixed = true
 
 /-- frame of the semaphore-only operations -/
 structure SemFrame (w w' : Work) : Prop where
@@ -53,11 +54,11 @@ theorem release_spec (w : Work) (h : WInv w) :
   cases hw : w.st.waiters with
   | nil =>
     rw [wakeNext_id _ (by simpa using hw)]
-    refine ⟨⟨by simp only []; omega, by simp [hw]⟩, ⟨rfl, rfl, rfl, rfl, rfl, rfl, Nat.le_refl _⟩, by simp only []; omega⟩
+    refine ⟨⟨by simp only []; omega, by simp [hw], h.fx⟩, ⟨rfl, rfl, rfl, rfl, rfl, rfl, Nat.le_refl _⟩, by simp only []; omega⟩
   | cons x rest =>
     have hS0 : w.st.S = 0 := h.wait_S (by simp [hw])
     rw [wakeNext_cons _ x rest (by simpa using hw)]
-    refine ⟨⟨by simp [hS0], by simp [hS0]⟩, ⟨rfl, rfl, rfl, rfl, rfl, by simp [hw], by simp [hw]⟩, by simp; omega⟩
+    refine ⟨⟨by simp [hS0], by simp [hS0], h.fx⟩, ⟨rfl, rfl, rfl, rfl, rfl, by simp [hw], by simp [hw]⟩, by simp; omega⟩
 
 theorem grow_spec (n : Nat) : ∀ (w : Work), WInv w →
     WInv (grow n w) ∧
@@ -72,7 +73,7 @@ theorem grow_spec (n : Nat) : ∀ (w : Work), WInv w →
   | succ n ih =>
     intro w h
     let w1 : Work := { w with st := { w.st with V := w.st.V + 1 } }
-    have h1 : WInv w1 := ⟨h.S_nonneg, h.wait_S⟩
+    have h1 : WInv w1 := ⟨h.S_nonneg, h.wait_S, h.fx⟩
     obtain ⟨hr, fr, hs⟩ := release_spec w1 h1
     obtain ⟨i1, i2, i3, i4, i5, i6, i7, i8, i9⟩ := ih (release w1) hr
     have e : grow (n + 1) w = grow n (release w1) := rfl
@@ -87,38 +88,52 @@ theorem grow_spec (n : Nat) : ∀ (w : Work), WInv w →
     · exact Nat.le_trans i8 fr.wl
     · rw [i9, hs]; show w.st.S + w.woken.length + 1 + (n : Int) = w.st.S + w.woken.length + ((n + 1 : Nat) : Int); omega
 
-/-- everything the property needs to know about `admitTask` -/
+/-- everything the property needs to know about `admitTask` (repaired class: a refused entrant
+hands its permit on) -/
 structure AdmitSpec (i : Nat) (w w' : Work) : Prop where
   inv : WInv w'
   T : w'.st.T = w.st.T
   slack : w'.slack = w.slack - 1
   queue : ids w'.evs ++ (w'.woken ++ w'.st.waiters) = ids w.evs ++ i :: (w.woken ++ w.st.waiters)
   wl : w'.st.waiters.length ≤ w.st.waiters.length
+  L : w'.st.leaked = w.st.leaked
   pos : 0 < w.st.T → w'.st.V = max w.st.V w.st.T ∧ w'.evs = w.evs ++ [Ev.entered i] ∧
-        w'.st.holders = w.st.holders ++ [i] ∧ w'.st.leaked = w.st.leaked
+        w'.st.holders = w.st.holders ++ [i]
   nonpos : w.st.T ≤ 0 → w'.st.V = w.st.V ∧ w'.evs = w.evs ++ [Ev.refused i] ∧
-        w'.st.holders = w.st.holders ∧ w'.st.leaked = w.st.leaked + 1 ∧
-        w'.woken = w.woken ∧ w'.st.waiters = w.st.waiters ∧ w'.st.S = w.st.S
+        w'.st.holders = w.st.holders
 
 theorem admitTask_spec (i : Nat) (w : Work) (h : WInv w) : AdmitSpec i w (admitTask i w) := by
   unfold admitTask
+  have hfx := h.fx
   by_cases hT : w.st.T ≤ 0
-  · simp only [hT, ↓reduceIte]
-    refine ⟨⟨h.S_nonneg, h.wait_S⟩, rfl, ?_, ?_, Nat.le_refl _, ?_, ?_⟩
-    · simp only [Work.slack]; omega
-    · simp [ids_append, ids]
+  · simp only [hT, ↓reduceIte, hfx]
+    let w1 : Work := { w with evs := w.evs ++ [Ev.refused i] }
+    have h1 : WInv w1 := ⟨h.S_nonneg, h.wait_S, h.fx⟩
+    obtain ⟨hr, fr, hs⟩ := release_spec w1 h1
+    show AdmitSpec i w (release w1)
+    have e1 : (release w1).st.T = w.st.T := fr.T
+    have e2 : (release w1).st.V = w.st.V := fr.V
+    have e3 : (release w1).st.holders = w.st.holders := fr.H
+    have e4 : (release w1).st.leaked = w.st.leaked := fr.L
+    have e5 : (release w1).evs = w.evs ++ [Ev.refused i] := fr.evs
+    have e6 : (release w1).woken ++ (release w1).st.waiters = w.woken ++ w.st.waiters := fr.q
+    have e7 : (release w1).st.waiters.length ≤ w.st.waiters.length := fr.wl
+    have e8 : (release w1).st.S + (release w1).woken.length = w.st.S + w.woken.length + 1 := hs
+    refine ⟨hr, e1, ?_, ?_, e7, e4, ?_, ?_⟩
+    · simp only [Work.slack, e2, e3, e4]; omega
+    · rw [e5, e6]; simp [ids_append, ids]
     · intro hp; omega
-    · intro _; exact ⟨rfl, rfl, rfl, rfl, rfl, rfl, rfl⟩
+    · intro _; exact ⟨e2, e5, e3⟩
   · simp only [hT, ↓reduceIte]
     obtain ⟨g1, g2, g3, g4, g5, g6, g7, g8, g9⟩ := grow_spec (w.st.T - w.st.V).toNat w h
-    refine ⟨⟨g1.S_nonneg, g1.wait_S⟩, g2, ?_, ?_, g8, ?_, ?_⟩
+    refine ⟨⟨g1.S_nonneg, g1.wait_S, g1.fx⟩, g2, ?_, ?_, g8, g5, ?_, ?_⟩
     · simp only [Work.slack, List.length_append, List.length_singleton]
       rw [g3, g4, g5]
       push_cast
       omega
     · simp only [g6, ids_append, ids, g7]; simp
     · intro _
-      refine ⟨?_, by rw [g6], by rw [g4], g5⟩
+      refine ⟨?_, by rw [g6], by rw [g4]⟩
       show (grow (w.st.T - w.st.V).toNat w).st.V = max w.st.V w.st.T
       rw [g3]; omega
     · intro hp; exact absurd hp hT
@@ -147,7 +162,9 @@ structure DrainSpec (w w' : Work) : Prop where
   V_le : w'.st.V ≤ max w.st.V w.st.T
   V_raise : 0 < w.st.T → w.woken ≠ [] → w'.st.V = max w.st.V w.st.T
   V_same : w.st.T ≤ w.st.V → w'.st.V = w.st.V
-  L_pos : 0 < w.st.T → w'.st.leaked = w.st.leaked
+  L : w'.st.leaked = w.st.leaked
+  H_nonpos : w.st.T ≤ 0 → w'.st.holders = w.st.holders
+  nil : w.woken = [] → w' = w
   evs_ext : ∃ e, w'.evs = w.evs ++ e ∧ (0 < w.st.T → ∀ x ∈ e, ∃ i, x = Ev.entered i) ∧
             (w.st.T ≤ 0 → ∀ x ∈ e, ∃ i, x = Ev.refused i)
 
@@ -162,7 +179,7 @@ theorem drain_spec (n : Nat) : ∀ (w : Work), WInv w → w.woken.length + w.st.
       | cons a b => rw [hh] at hn; simp at hn
     simp only [drain]
     exact ⟨h, hw, rfl, rfl, rfl, Nat.le_refl _, Int.le_refl _, by omega, by intro _ hne; exact absurd hw hne,
-      by intro _; rfl, by intro _; rfl, ⟨[], by simp, by simp, by simp⟩⟩
+      by intro _; rfl, rfl, by intro _; rfl, by intro _; rfl, ⟨[], by simp, by simp, by simp⟩⟩
   | succ n ih =>
     intro w h hn
     cases hw : w.woken with
@@ -170,18 +187,19 @@ theorem drain_spec (n : Nat) : ∀ (w : Work), WInv w → w.woken.length + w.st.
       have e : drain (n + 1) w = w := by simp [drain, hw]
       rw [e]
       exact ⟨h, hw, rfl, rfl, rfl, Nat.le_refl _, Int.le_refl _, by omega, by intro _ hne; exact absurd hw hne,
-        by intro _; rfl, by intro _; rfl, ⟨[], by simp, by simp, by simp⟩⟩
+        by intro _; rfl, rfl, by intro _; rfl, by intro _; rfl, ⟨[], by simp, by simp, by simp⟩⟩
     | cons i rest =>
       have e : drain (n + 1) w = drain n (resume i { w with woken := rest }) := by
         simp [drain, hw]
       rw [e]
-      have h0' : WInv { w with woken := rest } := ⟨h.S_nonneg, h.wait_S⟩
+      have h0' : WInv { w with woken := rest } := ⟨h.S_nonneg, h.wait_S, h.fx⟩
       have hT0 : ({ w with woken := rest } : Work).st.T = w.st.T := rfl
       have hV0 : ({ w with woken := rest } : Work).st.V = w.st.V := rfl
       have hw0 : ({ w with woken := rest } : Work).woken = rest := rfl
       have hw1 : ({ w with woken := rest } : Work).st.waiters = w.st.waiters := rfl
       have hev0 : ({ w with woken := rest } : Work).evs = w.evs := rfl
       have hL0 : ({ w with woken := rest } : Work).st.leaked = w.st.leaked := rfl
+      have hH0 : ({ w with woken := rest } : Work).st.holders = w.st.holders := rfl
       have hsl : ({ w with woken := rest } : Work).slack = w.slack + 1 := by
         simp only [Work.slack, hw, List.length_cons]; push_cast; omega
       have hq0 : w.queue = ids ({ w with woken := rest } : Work).evs ++
@@ -206,7 +224,7 @@ theorem drain_spec (n : Nat) : ∀ (w : Work), WInv w → w.woken.length + w.st.
       have dVle := d.V_le
       rw [a.T, hT0] at dVle
       have dVge := d.V_ge
-      refine ⟨d.inv, d.done, dT, ?_, ?_, ?_, ?_, ?_, ?_, ?_, ?_, ?_⟩
+      refine ⟨d.inv, d.done, dT, ?_, ?_, ?_, ?_, ?_, ?_, ?_, ?_, ?_, ?_, ?_⟩
       · rw [d.slack, a.slack, hsl]; omega
       · rw [d.queue, hq0]
         simp only [Work.queue]
@@ -227,10 +245,10 @@ theorem drain_spec (n : Nat) : ∀ (w : Work), WInv w → w.woken.length + w.st.
           have := d.V_same (by rw [a.T]; omega); omega
         · have hv := (a.nonpos (by omega)).1
           have := d.V_same (by rw [a.T]; omega); omega
+      · rw [d.L, a.L]; exact hL0
       · intro hT
-        rw [d.L_pos (by rw [a.T]; omega), (a.pos (by omega)).2.2.2]
-        show w0.st.leaked = w.st.leaked
-        exact hL0
+        rw [d.H_nonpos (by rw [a.T]; omega), (a.nonpos (by omega)).2.2]; exact hH0
+      · intro hnil; rw [hw] at hnil; exact absurd hnil (by simp)
       · obtain ⟨e', he', hp', hn'⟩ := d.evs_ext
         by_cases hT : 0 < w.st.T
         · refine ⟨Ev.entered i :: e', ?_, ?_, ?_⟩
